@@ -718,6 +718,7 @@ func rulesC14(r *Run) {
 	r.Kind("R5", "K3")
 	ruleCosmosBatch(r, "R5")
 	ruleBatchPerAttempt(r, "R5")
+	ruleBatchResponseExamined(r, "R5")
 }
 
 func hasErrorResult(fn *Func) bool {
@@ -1221,7 +1222,8 @@ func rulesC15(r *Run) {
 	for _, k := range []string{sqlKey("reader.Search"), sqlKey("reader.List")} {
 		ruleStreamClosed(r, "R3", k)
 	}
-	r.Expect("R3", 6)
+	ruleSubmitErrorHandled(r, "R3")
+	r.Expect("R3", 10)
 
 	r.Kind("R4", "K8")
 	ruleListQuery(r, "R4", m)
@@ -1398,11 +1400,17 @@ func ruleStreamClosed(r *Run, rule, key string) {
 		for i := range paths {
 			p := &paths[i]
 			submitted := false
-			for _, e := range p.Ev {
+			si := -1
+			for j, e := range p.Ev {
 				if IsCall(e, keySubmit) {
 					submitted = true
+					si = j
 				}
 				if e.Kind == EvCall && strings.HasSuffix(CalleeKey(e), "sqlitex.Pool.Put") && len(e.Call.Args) == 1 && ObjOf(info, e.Call.Args[0]) == conn {
+					// on the path where Submit answered an error the producer never started: the spawner still owns the connection (D43)
+					if si >= 0 && !e.Deferred && UseOfResult(fl, p, si).Verdict == "nonnil" {
+						continue
+					}
 					if (submitted || e.Deferred) && pathSubmits(p) && bad == "" {
 						bad = short + " returns the pooled connection to the pool itself (at function exit) while the producer it submitted still executes the query on it: the connection is reused concurrently"
 					}
@@ -1569,4 +1577,73 @@ func nilnessOfObj(info *types.Info, p *Path, idx int, obj types.Object) string {
 		return ""
 	}
 	return NilnessAt(info, p, idx, id)
+}
+
+// ruleSubmitErrorHandled (D43): a vault function that hands its work — and with it the duty to close the result stream
+// and to give the connection back — to the worker pool looks at what Pool.Submit answers. Submit does not run a function
+// whose context is already done; the stream handed out with a nil error was then never closed, and the sqlite vault
+// lost its only connection. Per Pool.Submit call in the two vault packages: the error is tested and the failing
+// branch returns an error.
+func ruleSubmitErrorHandled(r *Run, rule string) {
+	n := 0
+	for _, fn := range r.P.sortedFuncs() {
+		rel := relPkg(fn.Pkg.PkgPath)
+		if fn.Decl.Body == nil || (rel != pkgSqlite && rel != pkgCosmos) {
+			continue
+		}
+		file := r.P.Fset.Position(fn.Decl.Pos()).Filename
+		if strings.HasSuffix(file, "_test.go") || strings.HasSuffix(file, "fake_storage.go") || strings.HasSuffix(file, "testing.go") {
+			continue
+		}
+		has := false
+		ast.Inspect(fn.Decl.Body, func(x ast.Node) bool {
+			if c, ok := x.(*ast.CallExpr); ok {
+				if f, ok := calleeFunc(fn.Pkg.TypesInfo, c); ok && strings.HasSuffix(FuncKey(f), "worker.Pool.Submit") {
+					has = true
+				}
+			}
+			return !has
+		})
+		if !has {
+			continue
+		}
+		fl, paths, ok := r.flowPaths(rule, fn)
+		if !ok {
+			continue
+		}
+		paths = OwnOnly(paths)
+		bad := ""
+		var bpos token.Pos = fn.Decl.Pos()
+		seen := false
+		for i := range paths {
+			p := &paths[i]
+			for ci, e := range p.Ev {
+				if e.Kind != EvCall || e.Deferred || !strings.HasSuffix(CalleeKey(e), "worker.Pool.Submit") {
+					continue
+				}
+				seen = true
+				bpos = e.Pos
+				u := UseOfResult(fl, p, ci)
+				switch u.Verdict {
+				case "nonnil":
+					if msg := LostAfterNonNil(fl, p, u); msg != "" && bad == "" {
+						bad = "the error of Pool.Submit is tested but does not reach the caller (" + msg + ")"
+					}
+				case "nil":
+				default:
+					if bad == "" {
+						bad = "the error of Pool.Submit is " + orOK(u.Kind, "not used") + ": with a context that is already done the function is not run, so the stream this call hands out is never closed (and the connection it took is never given back)"
+					}
+				}
+			}
+		}
+		if !seen {
+			continue
+		}
+		n++
+		r.Check(rule, "submit-error-handled:"+ShortFn(fn.Key), bpos, bad == "", "%s", orOK(bad, "tested, failing branch returns the error"))
+	}
+	if n == 0 {
+		r.Unresolved(rule, "Pool.Submit calls in the vault packages")
+	}
 }
